@@ -134,10 +134,14 @@ impl Iterator for ReluctantFixedIterator<'_> {
     type Item = usize;
 
     fn next(&mut self) -> Option<Self::Item> {
+        #[cfg(regexml_verif)]
+        crate::verif::tick(6);
         if !self.started {
             self.started = true;
 
             while self.count < self.min {
+                #[cfg(regexml_verif)]
+                crate::verif::tick(7);
                 let mut it = self.op.matches_iter(self.matcher, self.pos);
                 if let Some(next) = it.next() {
                     self.count += 1;
